@@ -403,3 +403,100 @@ fn check_opt_view(v: &View, when: &str) {
         report("C17", "snapshot-dropped", format!("root {:x} was destroyed while a guard from [{}] still projects it ({})", v.root, v.chain, when));
     }
 }
+
+
+// ---- projections over a container of `Rc` (single-threaded by construction): the `Access<T>` impl
+// of `ArcSwapAny<Rc<T>, S>` (direct deref), access through `Rc<ArcSwapAny<..>>` and `&ArcSwapAny`,
+// static and boxed-dynamic `Map`s. Same oracle as above: one root per guard for its whole life, the
+// root alive while a guard projects it, a load after a store shows that store, tight reclamation.
+
+fn new_root_rc(id: u64) -> std::rc::Rc<Root> {
+    let flag = Arc::new(AtomicBool::new(false));
+    FLAGS.lock().unwrap().get_or_insert_with(HashMap::new).insert(id, flag.clone());
+    ROOTS_LIVE.fetch_add(1, SeqCst);
+    std::rc::Rc::new(Root { id, mid: Mid { root: id, leaf: leaf(id, 1), shared: Arc::new(leaf(id, 2)), boxed: Box::new(leaf(id, 3)) }, dropped: flag })
+}
+
+pub fn rc_program<S>(seed: u64) -> u64
+where
+    S: arc_swap::strategy::Strategy<std::rc::Rc<Root>> + Default + 'static,
+{
+    use std::rc::Rc;
+    let mut rng = Rng::new(seed);
+    let base = (seed & 0xFFFF_FFFF) << 24 | 0x4000_0000_0000_0000;
+    let mut next = base + 1;
+    let cont: Rc<ArcSwapAny<Rc<Root>, S>> = Rc::new(ArcSwapAny::new(new_root_rc(next)));
+    let mut current = next;
+    let mut views: Vec<View> = Vec::new();
+    let mut checked = 0u64;
+    let viol_before = crate::viol::count();
+    for _ in 0..rng.range(10, 40) {
+        match rng.below(6) {
+            0 | 1 | 2 if views.len() < 12 => {
+                let v = match rng.below(7) {
+                    0 => view(ArcSwapAny::load(&*cont), "ArcSwapAny<Rc>::load", |g| g.id),
+                    1 => view(<ArcSwapAny<Rc<Root>, S> as Access<Root>>::load(&cont), "Access<Root> for ArcSwapAny<Rc> (direct deref)", |g| g.id),
+                    2 => view(<Rc<ArcSwapAny<Rc<Root>, S>> as Access<Rc<Root>>>::load(&cont), "Access through Rc<ArcSwapAny<Rc>>", |g| g.id),
+                    3 => {
+                        let m = Map::new(cont.clone(), |r: &Root| &r.mid);
+                        view(Access::load(&m), "Map over Rc<ArcSwapAny<Rc>> (static)", |g| g.root)
+                    }
+                    4 => {
+                        let m = Map::new(Map::new(cont.clone(), |r: &Rc<Root>| r), |r: &Rc<Root>| &r.mid.leaf);
+                        view(Access::load(&m), "Map of identity Map over ArcSwapAny<Rc>", |g| g.root)
+                    }
+                    5 => {
+                        let d: Box<dyn DynAccess<Mid>> = Box::new(Map::new(cont.clone(), |r: &Root| &r.mid));
+                        let m = Map::new(AccessConvert(d), |m: &Mid| &*m.boxed);
+                        view(Access::load(&m), "Map over AccessConvert(Box<dyn DynAccess>) over ArcSwapAny<Rc>", |g| g.root)
+                    }
+                    _ => view(cont.load_full(), "ArcSwapAny<Rc>::load_full", |g| g.id),
+                };
+                if v.root != current {
+                    report("C17", "projection-stale", format!("[{}] projected {:x} although {:x} was stored last on the same thread", v.chain, v.root, current));
+                }
+                views.push(v);
+            }
+            3 => {
+                next += 1;
+                cont.store(new_root_rc(next));
+                current = next;
+            }
+            4 => {
+                next += 1;
+                let old = cont.swap(new_root_rc(next));
+                if old.id != current {
+                    report("C04", "swap-wrong-previous", format!("swap on an ArcSwapAny<Rc> returned {:x}, stored was {:x}", old.id, current));
+                }
+                current = next;
+                drop(old);
+            }
+            _ => {
+                if !views.is_empty() {
+                    let i = rng.below(views.len() as u64) as usize;
+                    let v = views.swap_remove(i);
+                    check_opt_view(&v, "at drop");
+                    let root = v.root;
+                    drop(v);
+                    if root != current && !views.iter().any(|w| w.root == root) && !is_dropped(root) {
+                        report("C17", "snapshot-retained", format!("root {:x} is still alive although its last projection guard is gone and it was replaced", root));
+                    }
+                }
+            }
+        }
+        for v in views.iter() {
+            check_opt_view(v, "while held");
+            checked += 1;
+        }
+    }
+    while let Some(v) = views.pop() {
+        check_opt_view(&v, "at the end");
+        drop(v);
+    }
+    drop(cont);
+    *FLAGS.lock().unwrap() = None;
+    if crate::viol::count() != viol_before {
+        runner::collect_violations(&json!({"workload": "access/rc-program", "seed": seed}));
+    }
+    checked
+}
